@@ -587,6 +587,26 @@ class Origins:
         return ("unknown", "rvalue:" + k)
 
 
+class ChoiceOrigins(Origins):
+    """Origins in which designated multi-definition locals are resolved to ONE chosen definition (the one a given
+    path passed last) instead of a flow-insensitive phi.  `touched` records which of them an evaluation met unresolved."""
+
+    def __init__(self, body, multi, choice):
+        super().__init__(body)
+        self.multi = multi
+        self.choice = choice
+        self.touched = set()
+
+    def of_local(self, l, depth=0, seen=frozenset()):
+        if l in self.multi and l not in seen:
+            if l in self.choice:
+                if depth > self.max_depth:
+                    return ("unknown", "depth")
+                return self._of_def(self.multi[l][self.choice[l]], depth + 1, seen | {l})
+            self.touched.add(l)
+        return super().of_local(l, depth, seen)
+
+
 def simplify(t):
     """Local algebraic simplifications of origin terms."""
     if t[0] == "deref":
